@@ -39,7 +39,7 @@ impl Dir {
     }
 }
 
-fn sig_tok(o: &Object) -> String {
+pub fn sig_tok(o: &Object) -> String {
     match o {
         Object::Engine(e) => format!("E:{}", e.rpm),
         Object::Rotator(r) => {
@@ -52,19 +52,15 @@ fn sig_tok(o: &Object) -> String {
 }
 
 fn history(out: &mut Out, sigs: &[Object], nontrivial: bool) {
-    let mut d = Dir::new();
-    let mut ins = vec![];
-    let mut outs = vec![];
-    for s in sigs {
-        ins.push(sig_tok(s));
-        outs.push(d.feed(s));
-    }
-    out.case(&format!("dir {}", ins.join(" ")), &outs.join(" "), nontrivial);
+    // the director runs as the daemon runs it (real Runtime, scheduled with schedule_io_sub_service, its commands taken from the
+    // real command task of a recording network): one signal at a time, the executor run until idle after each
+    let groups: Vec<Vec<Object>> = sigs.iter().map(|s| vec![s.clone()]).collect();
+    crate::dirrt::run_groups_as(out, "dir", &groups, &sig_tok, nontrivial);
 }
 
 /// An engine reading with every reported state in turn: the director's verdict is a function of the speed alone
 /// (the token carries only the speed; a verdict that starts to depend on the state shows as a disagreement).
-fn engine(rpm: u16) -> Object {
+pub fn engine(rpm: u16) -> Object {
     use std::sync::atomic::{AtomicUsize, Ordering};
     static K: AtomicUsize = AtomicUsize::new(0);
     let k = K.fetch_add(1, Ordering::Relaxed);
@@ -72,7 +68,7 @@ fn engine(rpm: u16) -> Object {
     Object::Engine(Engine { driver_demand: (k % 3) as u8, actual_engine: (k % 7) as u8, rpm, state })
 }
 
-fn rot(source: u8, roll_deg: f32, pitch_deg: f32, yaw_deg: f32, absolute: bool) -> Object {
+pub fn rot(source: u8, roll_deg: f32, pitch_deg: f32, yaw_deg: f32, absolute: bool) -> Object {
     let r = Rotation3::from_euler_angles(roll_deg.to_radians(), pitch_deg.to_radians(), yaw_deg.to_radians());
     Object::Rotator(if absolute { Rotator::absolute(source, r) } else { Rotator::relative(source, r) })
 }
@@ -140,5 +136,52 @@ pub fn run(out: &mut Out, tier: &str, rng: &mut Rng) {
         }
         history(out, &sigs, true);
         out.count("random history");
+    }
+}
+
+
+/// The director as the daemon runs it (real Runtime, re-entry after an overrun of its signal receiver, commands through the
+/// real command task): small groups of signals, and groups longer than the signal queue (17..40) that the director loses
+/// as a whole - before, between and after emergency readings.  At most two signals are processed while an emergency is
+/// pending in any one group, so that the six-command sequences never overrun the command queue.
+pub fn run_runtime(out: &mut Out, tier: &str, rng: &mut Rng) {
+    let other = || Object::Motion(glonax::core::Motion::ResumeAll);
+    let lag = |n: usize, with: Option<Object>| -> Vec<Object> {
+        let mut v: Vec<Object> = (0..n).map(|_| other()).collect();
+        if let Some(o) = with {
+            let k = v.len() / 2;
+            v[k] = o;
+        }
+        v
+    };
+    let mut cases: Vec<Vec<Vec<Object>>> = vec![
+        vec![vec![engine(2300)], vec![other()], vec![engine(1500)], vec![other()]],
+        // an emergency is pending, the receiver is overrun, the next signal must still be answered with the sequence
+        vec![vec![engine(2300)], lag(17, None), vec![other()], vec![engine(1000)], vec![other()]],
+        vec![vec![rot(0x7A, 50.0, 0.0, 0.0, true)], lag(40, None), vec![other()], lag(17, None), vec![other()]],
+        // the emergency reading itself is inside a lost group: it was never processed
+        vec![vec![engine(1500)], lag(17, Some(engine(2300))), vec![other()], vec![engine(2300)], vec![other()]],
+        // the reading that ends the emergency is inside a lost group: the emergency stands
+        vec![vec![engine(2300)], lag(18, Some(engine(1500))), vec![other()], vec![engine(1500)], vec![other()]],
+        // exactly the queue size is not an overrun
+        vec![vec![engine(1500)], { let mut g = lag(16, None); g[15] = engine(2300); g }, vec![other()]],
+        vec![lag(17, None), vec![engine(2300)], vec![other()]],
+    ];
+    for _ in 0..(if tier == "thorough" { 60 } else { 10 }) {
+        let mut groups = vec![];
+        for _ in 0..(2 + rng.below(6)) {
+            groups.push(match rng.below(6) {
+                0 => lag(17 + rng.below(24) as usize, if rng.chance(1, 2) { Some(engine(*rng.pick(&[1500u16, 2300]))) } else { None }),
+                1 => vec![engine(2300)],
+                2 => vec![engine(*rng.pick(&[900u16, 1500, 2200]))],
+                3 => vec![rot(0x7A, *rng.pick(&[10.0f32, 50.0]), 0.0, 0.0, true)],
+                4 => vec![other(), engine(*rng.pick(&[1500u16, 2201]))],
+                _ => vec![other()],
+            });
+        }
+        cases.push(groups);
+    }
+    for g in &cases {
+        crate::dirrt::run_groups(out, g, &sig_tok, true);
     }
 }
